@@ -471,6 +471,16 @@ def run(report, db, tier):
                         'new' if new else 'old', nm), rread, None,
                         'decoded %s differs from the encoded %s: {%s}'
                         % (nm, nm, d), v)
+    # "the connection's protocol": which side of the switch a version is on
+    # is decided by its place in the order of publication, which the library
+    # derives from the record list -- the list itself must be chronological
+    from ..common import borrow
+    from . import c08
+    borrow(report, 'R04.7', "the order the layout switch relies on is "
+           "chronological (C08's record rule)",
+           lambda rid, c: c.startswith('chronology:'),
+           lambda sub: c08.check_records(sub, db, c08.records_of(F, db),
+                                         sub.rule('R08.3', '')))
     agg.flush()
     report.note('abstract runs', n_runs)
     report.note('versions', len(versions))
